@@ -322,22 +322,22 @@ _S = dict(s0=R(1, 3), s1=R(1, 3), s2=R(1, 3), s3=R(1, 3), s4=R(1, 3), s5=R(1, 3)
 OBLIGATIONS = [
     Ob('reader', reader,
        sym=dict(two=B, err=R(-1, 3), **_C, **_S),
-       shards=dict(size=[0, 3, 5, 6], off=[0, 2], bs=[1, 2], mr=[2, 3], flen=[4, 9]),
+       shards=dict(size=[0, 3, 5], off=[0, 2], bs=[1, 2], mr=[2, 3], flen=[4, 9]),
        thorough_shards=dict(size=[0, 1, 2, 3, 4, 5, 6, 7], off=[0, 1, 2], bs=[1, 2, 3], mr=[1, 2, 3], flen=[0, 4, 7, 9]),
        pre=['s4 == 1 and s5 == 1 and c5 == 0'],
        timeout=150, thorough_timeout=400,
        functions=[S._SFTPParallelIO._start_tasks, S._SFTPParallelIO.iter, S._SFTPParallelIO._start_task,
                   S._SFTPFileReader.run_task, S._SFTPFileReader.run],
-       bounds='requested size {0,3,5,6} (thorough 0..7) at offset {0,2} (0..2), block size 1..2 (1..3), max_requests 2..3 (1..3), file length {4,9} '
+       bounds='requested size {0,3,5} (thorough 0..7) at offset {0,2} (0..2), block size 1..2 (1..3), max_requests 2..3 (1..3), file length {4,9} '
               '({0,4,7,9}); completion order: 6 symbolic choices among <= 3 pending, one or two completions per wait; short-read counts 1..3; one '
               'optional failing request'),
     Ob('writer', writer,
        sym=dict(two=B, err=R(-1, 3), **_C),
-       shards=dict(n=[0, 1, 5, 6], off=[0, 2], bs=[1, 2], mr=[1, 3]),
+       shards=dict(n=[0, 1, 5], off=[0, 2], bs=[1, 2], mr=[1, 3]),
        thorough_shards=dict(n=[0, 1, 2, 3, 4, 5, 6, 7, 8], off=[0, 1, 2], bs=[1, 2, 3], mr=[1, 2, 3]),
        timeout=150, thorough_timeout=400,
        functions=[S._SFTPFileWriter.run_task, S._SFTPFileWriter.run, S._SFTPParallelIO.iter],
-       bounds='data length {0,1,5,6} (thorough 0..8), offset {0,2}, block size 1..3, max_requests 1..3; any completion order; one optional failing block'),
+       bounds='data length {0,1,5} (thorough 0..8), offset {0,2}, block size 1..3, max_requests 1..3; any completion order; one optional failing block'),
     Ob('copier', copier,
        sym=dict(two=B, **_C, **_S),
        shards=dict(total=[0, 4, 5], flen=[3, 5, 8], bs=[1, 2], mr=[1, 3]),
